@@ -1,0 +1,22 @@
+//go:build verif
+// +build verif
+
+package edwards25519
+
+// Verification hooks (build tag verif): thin exports of the unexported ref10 scalar
+// routines of scalar.go, no logic.
+
+// VerifScMulAdd is scMulAdd: s = (a*b + c) mod l.
+func VerifScMulAdd(s, a, b, c *[32]byte) { scMulAdd(s, a, b, c) }
+
+// VerifScAdd is scAdd: s = (a + c) mod l.
+func VerifScAdd(s, a, c *[32]byte) { scAdd(s, a, c) }
+
+// VerifScSub is scSub: s = (a - c) mod l.
+func VerifScSub(s, a, c *[32]byte) { scSub(s, a, c) }
+
+// VerifScMul is scMul: s = (a*b) mod l.
+func VerifScMul(s, a, b *[32]byte) { scMul(s, a, b) }
+
+// VerifScReduce is scReduce: out = s mod l for a 64-byte s.
+func VerifScReduce(out *[32]byte, s *[64]byte) { scReduce(out, s) }
